@@ -303,16 +303,24 @@ def main(argv: List[str]) -> int:
     rdir = VERIF / "replays" / prop
     if unlisted:
         rdir.mkdir(parents=True, exist_ok=True)
+        confirmed = 0
         for (kind, sig), vs in unlisted:
             v = vs[0]
             path = rdir / f"{kind}__{sig}.json".replace("/", "_")
             path.write_text(json.dumps(v.to_json(), indent=1, default=str) + "\n")
+            if confirmed >= 4:
+                # enough counter-examples were replayed and confirmed; the others are written out but not each replayed
+                # (one root cause can show under hundreds of input-class signatures)
+                print(f"  further: kind={kind} sig={sig} cases={len(vs)} replay={path} (not replayed individually)")
+                continue
             if os.environ.get("MCHECK_NO_CONFIRM") or confirm(path):
+                confirmed += 1
                 n = res.counters.get(f"violations[{kind}/{sig}]", len(vs))
                 print(f"  detail: kind={kind} sig={sig} cases={n} msg={v.msg[:600]}")
                 print(f"VIOLATION property={prop} replay={path}")
                 rc = 1
             elif confirm_by_rerun(prop, tier, path):
+                confirmed += 1
                 # The single case is clean on its own but the violation shows again when the whole exploration is repeated
                 # in a fresh process: the outcome depends on earlier calls of the same run (state carried between calls),
                 # which the explored code is not supposed to have. The replay file documents the case; reproduce with the
